@@ -238,7 +238,7 @@ pub fn run(ctx: &mut Ctx) {
     // long inputs: thresholds at which bulk / block paths would switch on
     for id in ALL_CODECS {
         let m = id.model();
-        let lens = gen::long_lens(ctx.thorough(), ctx.seed);
+        let lens = gen::long_lens_bits(id.bits(), ctx.thorough(), ctx.seed);
         let acc = m.accepted_bytes();
         ctx.forall_lens(
             &format!("parse_long/{}", id.name()),
